@@ -193,4 +193,26 @@ def repeatTill0 {α β : Type} (f : Parser α) (g : Parser β) : Nat → Parser 
         if r.length == s.length then .err (errAt r)   -- assertion: the parser must consume
         else repeatTill0 f g fuel r
 
+/-! ### running a parser from ordinary code: `p.parse_next(&mut x)` -/
+
+/-- `winnow::error::ErrMode`; the crate's parsers only ever produce `Backtrack` -/
+inductive ErrMode where
+  | Backtrack (e : PErr)
+  | Cut (e : PErr)
+  | Incomplete (n : Unit)
+
+/-- the result of `p.parse_next(&mut x)` and the new value of `x`.  After a failure `x` is where the error
+says: primitives fail without consuming, `alt` and `try_map` reset to their start, which is also the input
+their errors carry, and every other combinator leaves the input where its failing part left it. -/
+def run {α : Type} (p : Parser α) (s : List Char) : Except ErrMode α × List Char :=
+  match p s with
+  | .ok a r => (.ok a, r)
+  | .err e => (.error (.Backtrack e), e.rest)
+
 end Winnow
+
+namespace Semver
+/-- the crate's field names of `SemverParseError` -/
+def PErr.input (e : PErr) : List Char := e.rest
+def PErr.context (e : PErr) : Option String := e.ctx
+end Semver
